@@ -21,7 +21,8 @@ Inputs == {"file", "pipe", "missing"}
 Damages == {"none", "hdrbit", "mac", "paybit_first", "paybit_last", "trunc", "trunc_chunk", "wrongkey", "garbage"}
 \* "devnull": -o /dev/null (a character device that takes everything); "fifo": -o names a FIFO somebody reads from
 \* "tty": no -o and standard output is a terminal; "tty_dash": the same with an explicit "-o -"
-Outs == {"stdout", "new", "existing", "missingdir", "underfile", "same_input", "same_keyfile", "devfull_o", "devfull_stdout", "limit", "devnull", "fifo", "tty", "tty_dash"}
+\* "fifo_gone": -o names a FIFO whose reader takes a few bytes and leaves while more than a pipe holds is still to come
+Outs == {"stdout", "new", "existing", "missingdir", "underfile", "same_input", "same_keyfile", "devfull_o", "devfull_stdout", "limit", "devnull", "fifo", "fifo_gone", "tty", "tty_dash"}
 Spellings == {"same", "dot", "dotdot", "abs", "dslash"}
 Limits == {"zero", "one", "mid", "lastbutone", "exact"}     \* where a size-limited destination stops accepting bytes
 \* "R_stdin" / "i_stdin": recipients (-R -) or identities (-i -) are to be read from standard input, which is also the input
@@ -52,9 +53,11 @@ Commands == EncCommands \cup DecCommands
   \cup {Cmd(op, "x25519", "r", FALSE, "file", 1, "none", "new", "same", "zero", fe) : op \in Ops, fe \in FlagErrs \ {"none", "R_stdin", "i_stdin"}}
   \cup {Cmd("enc", "x25519", "R", FALSE, "pipe", 1, "none", "new", "same", "zero", "R_stdin"),
         Cmd("dec", "x25519", "r", FALSE, "pipe", 1, "none", "new", "same", "zero", "i_stdin")}
+MoreThanAPipeHolds(sz) == sz >= 2     \* size class 2 is two chunks; a pipe holds one
 Meaningful(c) ==
   /\ (c.key = "scrypt") => (c.keyarg = "r" /\ c.out \in {"new", "existing", "missingdir", "same_input", "limit"})
   /\ (c.out = "same_input") => c.input = "file"
+  /\ (c.out = "fifo_gone") => MoreThanAPipeHolds(c.size)      \* (a result that fits into the pipe is gone with its reader, unnoticed by anyone)
   /\ (c.out = "same_keyfile") => ~(c.op = "enc" /\ c.keyarg = "r") /\ c.key # "scrypt"
   /\ (c.op = "dec") => c.damage \in DamagesFor(c.size)
 
@@ -82,6 +85,7 @@ CopyReach == CASE cmd.op = "enc" -> "all"
 \* (binary output to a terminal is refused before anything is written unless asked for with "-o -")
 DestCreate == cmd.out \notin {"missingdir", "underfile"} /\ ~(cmd.out = "tty" /\ cmd.op = "enc" /\ ~cmd.armor)
 DestTakes == CASE cmd.out \in {"devfull_o", "devfull_stdout"} -> "nothing"
+               [] cmd.out = "fifo_gone" -> "some"
                [] cmd.out = "limit" -> (IF cmd.limit = "exact" THEN "all" ELSE IF cmd.limit = "zero" THEN "nothing" ELSE "some")
                [] OTHER -> "all"
 
